@@ -11,8 +11,9 @@
     * every `unpack` returns the new ABSOLUTE offset;
     * `struct.unpack_from(fmt, data, off)` fails (struct.error) iff `off + size > len(data)`  → `readAt`;
     * Python slices `data[a:b]` never fail, they truncate                                     → `pySlice`;
-      VarLen / VarLenUtf8 / NestedPayload / DefaultArray / Address(domain host) slice WITHOUT a bounds check and return
-      `offset + declared length` even when that lies beyond the buffer (this is C03's subject; mirrored here);
+      VarLen / VarLenUtf8 / NestedPayload / DefaultArray check `offset + declared length <= len(data)` before slicing
+      (PackError otherwise)                                                                      → `sliceChecked`;
+      Address (domain host) and NodePacker (key) slice unchecked; the following `unpack_from` / varlenH bounds them;
     * NestedPayload.unpack ignores the inner end offset (trailing bytes inside the declared size are dropped);
     * `struct.pack` raises on out-of-range integers and on a wrong argument count; "Ns" pads with NULs / truncates;
     * Raw.unpack returns `len(data)` and `data[offset:]`.
@@ -67,6 +68,11 @@ def pySlice (d : Bytes) (a b : Nat) : Bytes := (d.drop a).take (b - a)
 /-- the bytes `struct.unpack_from` reads: `w` bytes at `off`, or struct.error -/
 def readAt (d : Bytes) (off w : Nat) : Except Err Bytes :=
   if off + w ≤ d.length then .ok ((d.drop off).take w) else .error .short
+
+/-- `data[off : off + n]` guarded by the bounds check `off + n <= len(data)` (PackError otherwise) that
+    VarLen / VarLenUtf8 / NestedPayload / DefaultArray perform before slicing -/
+def sliceChecked (d : Bytes) (off n : Nat) : Except Err Bytes :=
+  if off + n ≤ d.length then .ok ((d.drop off).take n) else .error .short
 
 /-- unsigned big-endian integer of width `w` at `off` -/
 def readUint (d : Bytes) (off w : Nat) : Except Err Nat :=
@@ -343,8 +349,8 @@ def decodeElems (k : AKind) : Nat → Bytes → List Atom
 
 mutual
 def pack : Fmt → Val → Except Err Bytes
-  | .struct [f], .atom a => packField f a
-  | .struct fs, .tuple as => packFields fs as
+  | .struct fs, .atom a => packFields fs [a]       -- `packer.pack(x)`: struct.error unless there is exactly one field
+  | .struct fs, .tuple as => packFields fs as      -- `packer.pack(*xs)`
   | .bits, .tuple as => if as.length = 8 then .ok [UInt8.ofNat (bitsByte as)] else .error .type
   | .ipv4, .addr (.v4 ip port) => do
     let p ← packUint 2 port
@@ -420,10 +426,11 @@ def unpackAt : Fmt → Bytes → Nat → Except Err (Val × Nat)
   | .raw, d, off => .ok (.atom (.bytes (d.drop off)), d.length)
   | .varlen lw base, d, off => do
     let n ← readUint d off lw
-    .ok (.atom (.bytes (pySlice d (off + lw) (off + lw + n * base))), off + lw + n * base)
+    let s ← sliceChecked d (off + lw) (n * base)
+    .ok (.atom (.bytes s), off + lw + n * base)
   | .varlenUtf8 lw base, d, off => do
     let n ← readUint d off lw
-    let s := pySlice d (off + lw) (off + lw + n * base)
+    let s ← sliceChecked d (off + lw) (n * base)
     if utf8Valid s then .ok (.str s, off + lw + n * base) else .error .utf8
   | .listOf lw f, d, off => do
     let n ← readUint d off lw
@@ -431,13 +438,12 @@ def unpackAt : Fmt → Bytes → Nat → Except Err (Val × Nat)
     .ok (.list vs, o)
   | .array lw k, d, off => do
     let n ← readUint d off lw
-    let s := pySlice d (off + lw) (off + lw + n * k.size)
-    if s.length % k.size = 0 then
-      .ok (.arr (decodeElems k (s.length / k.size) s), off + lw + n * k.size)
-    else .error .value
+    let s ← sliceChecked d (off + lw) (n * k.size)
+    .ok (.arr (decodeElems k n s), off + lw + n * k.size)
   | .nested fs, d, off => do
     let n ← readUint d off 2
-    let (vs, _) ← unpackListAt fs (pySlice d (off + 2) (off + 2 + n)) 0
+    let s ← sliceChecked d (off + 2) n
+    let (vs, _) ← unpackListAt fs s 0
     .ok (.record vs, off + 2 + n)
   | .flags w, d, off => do
     let n ← readUint d off w
